@@ -142,12 +142,12 @@ def model_run(machine, stmts, scope, faults, persistent):
                 out = ("rt", lang.ERROR)
         else:
             out = ("val", r)
+    except HostErr:
+        out = ("host", None)
     except Err as e:
         out = ("rt", e.value)
     except SynErr:
         out = ("syn", None)
-    except HostErr:
-        out = ("host", None)
     finally:
         machine.stack = []
     return out, list(machine.events), fired
